@@ -1,9 +1,9 @@
 package main
 
 // scenarios.go: hand-written arrival orders. One per repair mechanism named by the property
-// (they must hold), and minimal reproductions of every class of divergence the random
-// exploration found on the unchanged tree (they document a finding: the violation key is
-// the same as the one the exploration produces).
+// (they must hold), and minimal reproductions ("finding/...") of every root cause the random
+// exploration found on the unchanged tree: the violation key is the same as the one the
+// exploration produces. `kubereg repro <name>` runs one and prints what istio derived.
 
 import (
 	"fmt"
@@ -355,6 +355,12 @@ var directed = []scenario{
 		b.put(xSlice("svc-s1", "svc", 8080, epNotReady("10.0.0.1", "p1", "node-1")), "slice names p1 (not ready), p1 unknown")
 		b.put(xPod("p1", "10.0.0.1", "node-1", "sa-1", "running", lblA, 1), "p1 running, not ready")
 	}},
+	{name: "finding/publish-not-ready-slice-before-pod", tier: "kind-streams", about: "publishNotReadyAddresses: the slice lists a ready endpoint for a pod that is not Ready; the slice arrives first, so a healthy endpoint is missing for as long as the pod stays not Ready", build: func(b *sb) {
+		base(b)
+		b.put(xSvc("svc", selA, func(v *svcSim) { v.typ, v.publish = "headless", true }), "headless service, publishNotReadyAddresses")
+		b.put(xSlice("svc-s1", "svc", 8080, epSim{ip: "10.0.0.1", pod: "p1", node: "node-1", ready: true}), "slice: p1 ready (published although not Ready), p1 unknown")
+		b.put(xPod("p1", "10.0.0.1", "node-1", "sa-1", "running", lblA, 1), "p1 running, not ready")
+	}},
 	{name: "finding/slice-sees-unscheduled-pod", tier: "kind-streams", about: "the slice is processed while the pod informer still shows the pod unscheduled", build: func(b *sb) {
 		base(b)
 		b.put(xSvc("svc", selA, nil), "service")
@@ -387,6 +393,19 @@ var directed = []scenario{
 		b.put(xSlice("svc-s1", "svc", 8080, epReady("10.0.0.1", "p1", "node-1")), "slice (final: p1 is a member before and after)")
 		b.put(xPod("p1", "10.0.0.1", "node-1", "sa-1", "ready", map[string]string{"app": "c", "version": "v1"}, 1), "p1 app=c")
 		b.put(xSvc("svc", map[string]string{"app": "c"}, nil), "service selects app=c")
+	}},
+	{name: "finding/relabel-recompute-leaves-index-behind", tier: "kind-streams", about: "the re-computation for a relabelled pod finds every endpoint of the service waiting for its pod; the empty result is not written to the endpoint index, which keeps the deleted pod's endpoint", build: func(b *sb) {
+		base(b)
+		b.put(xSvc("svc", selA, nil), "service selects app=a")
+		old := xPod("p1", "10.0.0.1", "node-1", "sa-old", "ready", lblA, 1)
+		b.put(old, "p1 (sa-old) ready at .1")
+		b.put(xSlice("svc-s1", "svc", 8080, epNotReady("10.0.0.1", "p1", "node-1")), "slice: p1 at .1, not ready (final version; the slice stream is ahead)")
+		b.put(xPod("p2", "10.0.0.2", "node-1", "sa-1", "ready", lblA, 1), "p2 ready, app=a (not yet in a slice)")
+		b.del(old)
+		b.put(xPod("p2", "10.0.0.2", "node-1", "sa-1", "ready", lblA2, 1), "p2 version v2: svc is recomputed, p1 is unknown, nothing is left")
+		b.put(xPod("p2", "10.0.0.2", "node-1", "sa-1", "ready", map[string]string{"app": "b", "version": "v2"}, 1), "p2 app=b: no longer selected")
+		b.put(xPod("p1", "", "", "sa-new", "pending", lblA, 2), "new p1 (sa-new) pending")
+		b.put(xPod("p1", "10.0.0.1", "node-1", "sa-new", "running", lblA, 2), "new p1 running at .1, not ready")
 	}},
 	{name: "finding/unexported-service-endpoints", about: "true order; endpoints of a service exported to nobody are not maintained", build: func(b *sb) {
 		base(b)
